@@ -36,8 +36,22 @@ ExprExpected(ev) ==
      ELSE IF ~HasType(t, ev.lt, "int") /\ ~HasType(t, ev.lt, "bool") THEN [cls |-> "typeerr"]
      ELSE [cls |-> "val", v |-> Result(t, ev.lt, vals)]
 
-Expected(ev) == IF ev.fam = "expr" THEN ExprExpected(ev) ELSE Denote(ev.sp)
-Matches(ev, exp) == IF ev.fam = "expr" THEN ev.obs = exp ELSE LitOk(exp, ev.obs)
+(*   [fam |-> "postfix", px, obs]  prefix operators x atom x suffixes in a   *)
+(*        binary context (Prec.PxExpected); [fam |-> "block", bx, obs] a    *)
+(*        block in expression position (Prec.BlockExpected); obs is the     *)
+(*        result record ([t |-> "float" | "int" | "bool" | "str", ..]),     *)
+(*        [t |-> "typeerr"], [t |-> "parseerr"] or [t |-> "abnormal"]       *)
+Expected(ev) ==
+  CASE ev.fam = "expr" -> ExprExpected(ev)
+    [] ev.fam = "postfix" -> PxExpected(ev.px)
+    [] ev.fam = "block" -> BlockExpected(ev.bx)
+    [] OTHER -> Denote(ev.sp)
+Matches(ev, exp) ==
+  CASE ev.fam = "expr" -> ev.obs = exp
+    [] ev.fam \in {"postfix", "block"} -> IF exp.t = "any" THEN ev.obs.t # "abnormal" ELSE ev.obs = exp
+    [] OTHER -> LitOk(exp, ev.obs)
+NoClaimAbout(ev, exp) == IF ev.fam = "expr" THEN FALSE
+                         ELSE IF ev.fam \in {"postfix", "block"} THEN exp.t = "any" ELSE exp.cls = "any"
 
 (* TLC registers: 1 = unmatched events, 2 = events the specification makes no claim about *)
 TraceInit == l = 1 /\ TLCSet(1, 0) /\ TLCSet(2, 0)
@@ -46,10 +60,10 @@ TraceNext ==
   /\ l' = l + 1
   /\ LET ev == Rec[l]
          exp == Expected(ev)
-     IN /\ (exp.cls = "any" => TLCSet(2, TLCGet(2) + 1))
+     IN /\ (NoClaimAbout(ev, exp) => TLCSet(2, TLCGet(2) + 1))
         /\ IF Matches(ev, exp) THEN TRUE
            ELSE /\ PrintT(<<"UNMATCHED", ToJson([line |-> l, ev |-> ev, expected |-> exp,
-                                                       dev |-> IF ev.fam = "expr" THEN <<>> ELSE DeviantFstr(ev.sp)])>>)
+                                                       dev |-> IF ev.fam \in {"expr", "postfix", "block"} THEN <<>> ELSE DeviantFstr(ev.sp)])>>)
                 /\ TLCSet(1, TLCGet(1) + 1)
 TraceSpec == TraceInit /\ [][TraceNext]_l
 
